@@ -1,4 +1,5 @@
 from vlib.core import Case
+from props import c08
 
 H = "harness/c09_isolation.c"
 SRCS = ["parser.c", "lexer.c", "utils.c", "error.c", "fifo.c", "ieee488.c"]
@@ -22,12 +23,15 @@ def mk(ia, ib, havoc, timeout=600, aread=0, bread=2):
 
 
 def cases(tier):
-    cs = []
+    # third anchor of C09: consumed bytes are removed from the input buffer and the rest is moved to the front - the functional
+    # specification of SCPI_Input's buffer logic (shared with C08) decides that for every stream / chunking within its bound
+    cs = [c08.buflogic(5 if tier == "quick" else 6, timeout=900 if tier == "quick" else 3000)]
     if tier == "quick":
         for ia in range(len(MSGA)):
-            cs.append(mk(ia, ia % len(MSGB), 1, aread=ia % 2, bread=(ia + 1) % 3))
-        cs.append(mk(0, 0, 0, aread=1, bread=2))
-        cs.append(mk(3, 1, 0, aread=0, bread=1))
+            for ib in range(len(MSGB)):
+                cs.append(mk(ia, ib, 1, aread=(ia + ib) % 2, bread=(ia + 2 * ib + 1) % 3))
+        for ia in (0, 2, 3, 5):
+            cs.append(mk(ia, ia % len(MSGB), 0, aread=1 - ia % 2, bread=2 - ia % 3))
     else:
         for ia in range(len(MSGA)):
             for ib in range(len(MSGB)):
